@@ -299,6 +299,9 @@ class History:
         rng = self.rng
         mine = self.out.get(ns, {})
         r = rng.random()
+        if r > 0.95:
+            # an acknowledgement that carries no id at all
+            return None, 'noid'
         if mine and r < 0.4:
             return rng.choice(sorted(mine)), 'correct'
         if r < 0.5 and self.used.get(ns):
@@ -663,7 +666,8 @@ def run(ctx):
     ctx.require('callbacks_checked', 20)
     ctx.require('calls_judged', 20)
     ctx.require('call_timeouts_observed', 5)
-    for cls in ('correct', 'duplicate', 'zero', 'foreign', 'never_issued'):
+    for cls in ('correct', 'duplicate', 'zero', 'foreign', 'never_issued',
+                'noid'):
         ctx.require('acks_' + cls, 3)
     # two threads emitting with callbacks at the same time (handlers run in
     # a thread each): distinct ids, each callback once with its own ACK
